@@ -1006,6 +1006,9 @@ class SymKernel:
                                        # guard (the kernel describes iterations that run to the end of the body), and the targets are
                                        # read from the state at the end of the body
     cond_consts: dict = field(default_factory=dict)  # source text of a condition -> True / False (the kernel fixes that branch)
+    pointwise: bool = False            # the kernel reads array code for ONE element: `np.zeros(n)` is 0, `x[mask]` is x, a masked store
+                                       # is a conditional, `np.any(mask)` guards only masked stores (taken), `np.isnan` is false (no NaN
+                                       # over the reals: stated in the generated file)
     out: str = 'real'                  # 'real' | 'vec' (the kernel returns a list: vector kernels, third generation)
     vec_attrs: tuple = ()              # attribute chains that hold arrays ('traj.fuel_mass'): read from `AV : String → List α`
     cut_expr: dict = field(default_factory=dict)     # source text of an expression -> (input name, 'real'|'vec'|'nat'|'bool')
@@ -1467,6 +1470,13 @@ class Sym:
             base = self._ev(e.value, env)
             if isinstance(base, Lv):
                 return self.vec_subscript(base, e.slice, env)
+            if self.spec.pointwise and isinstance(base, R):
+                try:
+                    m = self.test(e.slice, env)
+                    if isinstance(m, (Bv, bool)):
+                        return base               # `x[mask]` read for one element: the element itself (used under that mask)
+                except Untranslatable:
+                    pass
             if isinstance(base, Cv) and isinstance(base.c, str) and base.c[0:1].isupper():
                 return base                           # generic alias such as SpeciesValues[float]
             key = self._ev(e.slice, env)
@@ -1702,6 +1712,22 @@ class Sym:
             if isinstance(c, Lv):
                 return self.pointwise(lambda cc, x, y: self.merge(cc, x, y, 'sel'), c, self._ev(args[1], env), self._ev(args[2], env))
             return self.merge(c, self._ev(args[1], env), self._ev(args[2], env), 'sel')
+        if npf == 'isclose' and len(args) == 2 and not e.keywords:
+            a = self.real(self._ev(args[0], env), ast.unparse(args[0]))
+            if isinstance(args[1], ast.Constant) and args[1].value == 0:
+                return Bv(f'((sabs {a.e}) ≤ (Lit.dec (1) 8 : α))', a.deps)       # |a| ≤ atol (rtol·|0| = 0)
+            b = self.real(self._ev(args[1], env), ast.unparse(args[1]))
+            return Bv(f'((sabs ({a.e} - {b.e})) ≤ ((Lit.dec (1) 8 : α) + ((Lit.dec (1) 5 : α) * (sabs {b.e}))))', a.deps | b.deps)
+        if self.spec.pointwise and npf == 'any' and len(args) == 1:
+            self.guards.append('np.any(' + ast.unparse(args[0]) + ') guards masked stores only (taken)')
+            return Cv(True)
+        if self.spec.pointwise and npf == 'isnan' and len(args) == 1:
+            self.guards.append('np.isnan(' + ast.unparse(args[0]) + ') is false over the reals')
+            return Cv(False)
+        if self.spec.pointwise and npf in ('zeros', 'zeros_like') and args:
+            return R('(Lit.dec (0) 1 : α)')
+        if self.spec.pointwise and isinstance(f, ast.Name) and f.id == 'len' and len(args) == 1 and 'len' not in env:
+            return Cv('len')
         if isinstance(f, ast.Name) and f.id == 'slice' and len(args) == 2 and 'slice' not in env and not e.keywords:
             return Tv([self.nat_of(self._ev(a, env), a) for a in args])      # slice(start, stop) of two lengths
         if isinstance(f, ast.Name) and f.id == 'len' and len(args) == 1 and 'len' not in env:
@@ -2080,6 +2106,10 @@ class Sym:
                     if not isinstance(c, bool):
                         env[t.value.id] = self.merge(c, v, base, t.value.id)
                         return
+                    if self.spec.pointwise:
+                        if c:
+                            env[t.value.id] = self.named(t.value.id, v)
+                        return
                 except Untranslatable:
                     pass
             key = self.ev(t.slice, env)
@@ -2456,6 +2486,16 @@ for _m in ('IDLE', 'APPROACH', 'CLIMB', 'TAKEOFF'):
     SYM_KERNELS.append(SymKernel(f'lto_fuel_{_m}', 'emissions/lto.py', 'get_LTO_emissions', [('ei', 'tmv')],
                                  f'lto_fuel_burn/ThrustMode.{_m}', **_LTO))
 SYM_KERNELS.append(SymKernel('lto_fuel_burn', 'emissions/lto.py', 'get_LTO_emissions', [('ei', 'tmv')], 'return/fuel_burn', **_LTO))
+# the whole BFFM2 HC / CO fit for one evaluation point (C12): slanted / horizontal segments in log space, the SAGE clamping rules
+# (if / elif / elif on the calibration data), the masked evaluation, the ACRP low-thrust factor, the ambient factor
+SYM_KERNELS.append(SymKernel('hcco_ei', 'emissions/ei/hcco.py', 'EI_HCCO', ['ff_eval', 'Tamb', 'Pamb'], 'return', pointwise=True))
+# … the same function in two stages (so that the bridge proof can be staged too): the five fit parameters after the clamping rules
+# (steps 1–4, functions of the calibration data only), and the evaluation of one point given those parameters (steps 5–7)
+_HC_PARAMS = ('slope', 'base_log_fuel', 'base_log_EI', 'x_horzline', 'x_intercept')
+for _t in _HC_PARAMS:
+    SYM_KERNELS.append(SymKernel('hcco_param_' + _t, 'emissions/ei/hcco.py', 'EI_HCCO', [], _t, pointwise=True))
+SYM_KERNELS.append(SymKernel('hcco_point', 'emissions/ei/hcco.py', 'EI_HCCO', ['ff_eval', 'Tamb', 'Pamb'] + list(_HC_PARAMS), 'return',
+                             pointwise=True, cut=_HC_PARAMS))
 SYM_KERNELS.append(SymKernel('weather_ground_speed', 'weather.py', 'Weather.get_ground_speed',
                              ['true_airspeed', 'heading_rad', 'wind_u', 'wind_v'], 'return',
                              cut=('heading_rad', 'wind_u', 'wind_v')))
